@@ -108,6 +108,28 @@ Router::~Router()
 {
     m_currently_calling_destructors = true;
 
+    // Objects added since the last transaction are only known from the
+    // action list.  They belong to the router too.
+    std::vector<Obstacle *> queuedObstacles;
+    std::vector<ConnRef *> queuedConns;
+    for (ActionInfoList::iterator act = actionList.begin();
+            act != actionList.end(); ++act)
+    {
+        if ((act->type == ShapeAdd) || (act->type == JunctionAdd))
+        {
+            queuedObstacles.push_back(act->obstacle());
+        }
+        else if ((act->type == ConnChange) && !act->conn()->m_active)
+        {
+            queuedConns.push_back(act->conn());
+        }
+    }
+    actionList.clear();
+    for (size_t i = 0; i < queuedConns.size(); ++i)
+    {
+        delete queuedConns[i];
+    }
+
     // Delete remaining connectors.
     ConnRefList::iterator conn = connRefs.begin();
     while (conn != connRefs.end())
@@ -132,6 +154,10 @@ Router::~Router()
         }
         delete obstaclePtr;
         obstacle = m_obstacles.begin();
+    }
+    for (size_t i = 0; i < queuedObstacles.size(); ++i)
+    {
+        delete queuedObstacles[i];
     }
 
     // Delete remaining clusters.
